@@ -296,24 +296,7 @@ def e2e_job(job):
                             g[1] == w_[1] and (g[0] == w_[0] or _same_c_function(m, g[0], w_[0])) for g, w_ in zip(got["rows"], want))       # (incl. a repeated import)
                         if not ok:
                             ent.setdefault("init_diffs", []).append({"kind": "func-exports-table", "real": got, "spec": want})
-                for ordn, me in sorted(rr.mem_exports.items()):
-                    # every exported memory through its `<module>_<name>` accessor: the instance's memory of the export's index
-                    bad_ = None
-                    n_mi__ = sum(1 for i_ in m.imports if i_.kind == "memory")
-                    if me["index"] < n_mi__:         # a memory imported once more is the memory of its first import entry
-                        me = dict(me, index=e2e.import_owner(m, "memory")[me["index"]])
-                    if not me["same_object"]:
-                        bad_ = "the accessor does not return the instance's memory %d" % me["index"]
-                    elif me["index"] == 0 and rr.mem is not None and (me["pages"] != rr.mem["pages"] or me["sha256"] != rr.mem["sha256"]):
-                        bad_ = "memory 0 read through the accessor differs from the instance's memory 0"
-                    elif me["index"] > 0:
-                        import hashlib
-                        pg, data_ = expected_memory_k(m, imp, me["index"])
-                        if me["pages"] != pg or me["sha256"] != hashlib.sha256(data_).hexdigest():
-                            bad_ = "memory %d read through the accessor is not the declared minimum of zero pages with its data segments" % me["index"]
-                    if bad_:
-                        ent.setdefault("init_diffs", []).append({"kind": "memory-export-accessor", "export": ordn, "real": dict(me, bytes=None, why=bad_),
-                                                                 "spec": "memory %d of the instance" % me["index"]})
+                ent.setdefault("init_diffs", []).extend(accessor_diffs(m, imp, rr))
                 if any(v is False for v in rr.bound.values()):
                     ent.setdefault("init_diffs", []).append({"kind": "import-not-bound", "real": rr.bound})
                 if rr.mem_accessor_ok is False:
@@ -386,6 +369,31 @@ def expected_memory_k(m, imp, k):
             if off + len(seg.data) <= len(data):
                 data[off:off + len(seg.data)] = seg.data
     return mems[k].min, bytes(data)
+
+
+def accessor_diffs(m, imp, rr):
+    """every exported memory read through its `<module>_<name>` accessor (final dump of one instance): the instance's memory of the
+    export's index — object identity, and for memories other than 0 (no instruction addresses them) pages and bytes as right after
+    instantiation"""
+    import hashlib
+    out = []
+    n_mi = sum(1 for i_ in m.imports if i_.kind == "memory")
+    for ordn, me in sorted(rr.mem_exports.items()):
+        bad_ = None
+        if me["index"] < n_mi:         # a memory imported once more is the memory of its first import entry
+            me = dict(me, index=e2e.import_owner(m, "memory")[me["index"]])
+        if not me["same_object"]:
+            bad_ = "the accessor does not return the instance's memory %d" % me["index"]
+        elif me["index"] == 0 and rr.mem is not None and (me["pages"] != rr.mem["pages"] or me["sha256"] != rr.mem["sha256"]):
+            bad_ = "memory 0 read through the accessor differs from the instance's memory 0"
+        elif me["index"] > 0:
+            pg, data_ = expected_memory_k(m, imp, me["index"])
+            if me["pages"] != pg or me["sha256"] != hashlib.sha256(data_).hexdigest():
+                bad_ = "memory %d read through the accessor is not the declared minimum of zero pages with its data segments" % me["index"]
+        if bad_:
+            out.append({"kind": "memory-export-accessor", "export": ordn, "real": dict(me, bytes=None, why=bad_),
+                        "spec": "memory %d of the instance" % me["index"]})
+    return out
 
 
 def shape_of(m):
@@ -464,7 +472,7 @@ def _sparse(data):
     return str(len(data)) + "".join("/%d:%s" % (mm.start(), mm.group(0).hex()) for mm in re.finditer(rb"[^\x00]+", data))
 
 
-def family_reference_modules(m):
+def family_reference_modules(m, defines_memory=None):
     """(module for V8's first instantiations, module for V8's child instantiations | None = the same, note).
     V8 has no NewChild: a child is a further V8 instance made with the imported memories and globals of its parent (an imported table
     is per instance on both sides: a wasm table entry is a closure over its defining instance, w2c2's a C function pointer called with the
@@ -481,7 +489,8 @@ def family_reference_modules(m):
         ref = copy.deepcopy(m)
         ref.imports.append(A.Import(b"__verif", b"shared_mem0", "memory", ref.mems.pop(0)))
         note = "shared-defined-memory-as-import"
-    elif not m.mems and any(d.mode == "active" and len(d.data) for d in m.datas):
+    elif not (bool(m.mems) if defines_memory is None else defines_memory) and any(d.mode == "active" and len(d.data) for d in m.datas):
+        # (defines_memory: of the REAL module, when `m` is its single-memory variant)
         child = copy.deepcopy(m)
         for d in child.datas:
             if d.mode == "active":
@@ -492,10 +501,12 @@ def family_reference_modules(m):
 
 
 def family(repo, work, w2c2, m, calls, imp, tr, build, spec, cap=12):
-    """Interleaved history on five live instances of ONE module: 0 = A (<module>Instantiate), 1 = B = A's common.newChild(A) made AFTER
+    """Interleaved history on six live instances of ONE module: 0 = A (<module>Instantiate), 1 = B = A's common.newChild(A) made AFTER
     A's first calls, 2 = C (<module>Instantiate, independent), 3 = D = C's common.newChild(C) made before any call, 4 = E (independent;
     after the last call it is released with <module>FreeInstance and instantiated again: the new instance is judged against the
-    independent statement of the initial state).  Every instance is
+    independent statement of the initial state), 5 = F = B's common.newChild(B) (a grandchild), made late, then called in turn with B
+    and A.  A module with several memories is compared with the V8 family of its single-memory variant; its other memories are judged
+    by the independent statements (shared with the parent's memory of the SAME index iff declared shared; accessor bytes).  Every instance is
     compared with the corresponding V8 instance of `v8.run_family` (results, host trace, final memory, exported globals); the dumps
     taken around each NewChild are judged against independent statements: the parent's globals / table / (unshared) memory are the same
     before and after, a child's defined globals equal their initialisers, its table is the element segments applied in order, a defined
@@ -510,12 +521,27 @@ def family(repo, work, w2c2, m, calls, imp, tr, build, spec, cap=12):
     while any(q):
         k = rng.choice([j for j in range(5) if q[j]])
         script.append(q[k].pop(0))
-    ref, childmod, note = family_reference_modules(m)
+    # F = B's common.newChild(B) (a grandchild of A), made after all of that; then F, B and A are called in turn
+    at2 = len(script)
+    tail = [(5, n, v) for n, v in cs[:4]] + [(1, n, v) for n, v in cs[:2]] + [(0, n, v) for n, v in cs[:2]]
+    rng.shuffle(tail)
+    script += tail
+    mm = m
+    several = len(m.all_mems()) > 1
+    if several:
+        # this V8 has one memory per module: the reference family is that of the module without its other memories (the code addresses
+        # memory 0 only); the other memories are judged by the independent statements below (identity with the parent's memory of the same
+        # index iff shared, bytes as right after instantiation, read through the accessors)
+        mm = single_memory_variant(m)
+    ref, childmod, note = family_reference_modules(mm, defines_memory=bool(m.mems))
+    if several:
+        note = (note + "; " if note else "") + "V8 reference = single-memory variant"
     out = {"diffs": [], "script_len": len(script), "order": "".join(str(x[0]) for x in script)[:100], "reference": note, "child_created_at": at,
            "compared_calls": 0, "skipped": None}
 
     def plan_for(a):
-        pl = [{"kind": "new"}, {"kind": "child", "parent": 0, "at": a}, {"kind": "new"}, {"kind": "child", "parent": 2, "at": 0}, {"kind": "new"}]
+        pl = [{"kind": "new"}, {"kind": "child", "parent": 0, "at": a}, {"kind": "new"}, {"kind": "child", "parent": 2, "at": 0}, {"kind": "new"},
+              {"kind": "child", "parent": 1, "at": max(a, min(at2, len(script)))}]
         if childmod is not None:
             for p_ in pl:
                 if p_["kind"] == "child":
@@ -527,7 +553,7 @@ def family(repo, work, w2c2, m, calls, imp, tr, build, spec, cap=12):
         out["skipped"] = "V8 instantiation: %r" % ([v.instantiate for v in vs],)
         return out
     # w2c2 emits no bounds / signature checks: the script ends before the first call on which V8 raises such a trap
-    pos = [0] * 5
+    pos = [0] * 6
     cut = None
     for j, (k, n, a) in enumerate(script):
         r = vs[k].results[pos[k]] if pos[k] < len(vs[k].results) else None
@@ -538,11 +564,13 @@ def family(repo, work, w2c2, m, calls, imp, tr, build, spec, cap=12):
     if cut is not None:
         script = script[:cut]
         at = min(at, cut)
+        at2 = min(at2, cut)
         out["truncated_at"] = cut
         vs = v8.run_family(refb, plan_for(at), script, imp, module=ref)
     cc, copts, san = build
-    rs = e2e.run_real_multi(repo, work, w2c2, m, script, imp, instances=5, cc=cc, copts=tuple(copts), sanitize=san, translated=tr,
-                            children={1: (0, at), 3: (2, 0)}, init_dump=True, keep_mem=True, reinst=[4])
+    at2 = max(at, min(at2, len(script)))
+    rs = e2e.run_real_multi(repo, work, w2c2, m, script, imp, instances=6, cc=cc, copts=tuple(copts), sanitize=san, translated=tr,
+                            children={1: (0, at), 3: (2, 0), 5: (1, at2)}, init_dump=True, keep_mem=True, reinst=[4])
     float_stores = any(i.op in FLOAT_STORES for f in m.funcs for i in _walk(f.body))
     for k, (r, v) in enumerate(zip(rs, vs)):
         if r.instantiate[0] == "skip" and v.instantiate[0] == "skip":
@@ -556,7 +584,7 @@ def family(repo, work, w2c2, m, calls, imp, tr, build, spec, cap=12):
         diffs, info = e2e.compare(r, v, what=("instantiate", "results", "mem", "globals") if k != 4 else ("instantiate", "results"))
         out["compared_calls"] += info["compared_calls"]
         if not r.host_inst_ok:
-            out["diffs"].append({"kind": "family-host_instance", "instance": k, "role": "ABCDE"[k],
+            out["diffs"].append({"kind": "family-host_instance", "instance": k, "role": "ABCDEF"[k],
                                  "real": "an imported function did not receive the calling instance", "v8": None})
         diffs, ndrop = nan_leak_filter(spec, [[n_.decode("latin-1") if isinstance(n_, bytes) else n_, a_] for n_, a_ in cs], diffs)
         if ndrop:
@@ -565,15 +593,15 @@ def family(repo, work, w2c2, m, calls, imp, tr, build, spec, cap=12):
             if d["kind"] == "memory" and float_stores:
                 out["memory_hash_not_compared_float_stores"] = True       # NaN payloads of stored arithmetic results are left open
                 continue
-            out["diffs"].append(dict(d, kind="family-" + d["kind"], instance=k, role="ABCDE"[k]))
+            out["diffs"].append(dict(d, kind="family-" + d["kind"], instance=k, role="ABCDEF"[k]))
         if any(x is False for x in r.bound.values()):
-            out["diffs"].append({"kind": "family-import-not-bound", "instance": k, "role": "ABCDE"[k], "real": r.bound})
+            out["diffs"].append({"kind": "family-import-not-bound", "instance": k, "role": "ABCDEF"[k], "real": r.bound})
     # a crash of the program ends every later call: report the crash, not the calls that could not run after it
     if any(dd["kind"] == "family-result" and dd["real"][0] in ("ub", "crash", "timeout") for dd in out["diffs"]):
         out["diffs"] = [dd for dd in out["diffs"] if not (dd["kind"] == "family-result" and dd["real"][0] == "missing")]
         out["diffs"].sort(key=lambda dd: not (dd["kind"] == "family-result" and dd["real"][0] in ("ub", "crash", "timeout")))
     # the host calls of the whole family, in the order they happened: (callee, argument bits); the calling instance is checked on the real side
-    created_at = {1: at, 3: 0}
+    created_at = {1: at, 3: 0, 5: at2}
     seq = []
     for k, r in enumerate(rs):
         for n_, (cn, ent) in enumerate(zip(r.host_calls, r.host_log)):
@@ -624,27 +652,33 @@ def family(repo, work, w2c2, m, calls, imp, tr, build, spec, cap=12):
     n_gi = sum(1 for i in m.imports if i.kind == "global")
     n_mi = sum(1 for i in m.imports if i.kind == "memory")
     shares_memory = bool(n_mi) or any(l.shared for l in m.mems)
-    reapplies = bool(m.mems) and any(d.mode == "active" and len(d.data) for d in m.datas)
+    # NewChild applies the active segments again: only those of memory 0 can change the dumped memory (0) of the parent
+    reapplies = bool(m.mems) and any(d.mode == "active" and len(d.data) and (d.memory or 0) == 0 for d in m.datas)
     out["child_dumps"] = {}
-    for ck, pk in ((1, 0), (3, 2)):
-        cd = rs[ck].child_dumps.get(ck)
+    # every exported memory of every instance through its accessor (final state): memories other than 0 hold what instantiation put there
+    for k, r in enumerate(rs):
+        if k != 4 and r.instantiate and r.instantiate[0] == "ok":
+            for d_ in accessor_diffs(m, imp, r):
+                out["diffs"].append(dict(d_, kind="family-" + d_["kind"], instance=k, role="ABCDEF"[k]))
+    for ck, pk in ((1, 0), (3, 2), (5, 1)):
+        cd = rs[ck].child_dumps.get(ck) if ck < len(rs) else None
         if not cd or "self" not in cd:
             continue
-        role = "ABCD"[ck]
+        role = "ABCDEF"[ck]
         before, after, me = cd.get("parent_before"), cd.get("parent"), cd["self"]
         if before and after:
             # the parent's DEFINED globals are fields of its own struct (imported ones are shared cells the child's start function may write)
             bg = {g: tuple(x) for g, x in before["all_globals"].items() if g >= n_gi}
             ag = {g: tuple(x) for g, x in after["all_globals"].items() if g >= n_gi}
             if bg != ag and not (set(bg) == set(ag) and all(e2e.same_vals([bg[g]], [ag[g]]) for g in bg)):
-                out["diffs"].append({"kind": "newchild-changes-parent-globals", "instance": pk, "role": "ABCD"[pk], "child": role,
+                out["diffs"].append({"kind": "newchild-changes-parent-globals", "instance": pk, "role": "ABCDEF"[pk], "child": role,
                                      "real": ag, "spec": bg})
             if before["table"] != after["table"]:
-                out["diffs"].append({"kind": "newchild-changes-parent-table", "instance": pk, "role": "ABCD"[pk], "child": role,
+                out["diffs"].append({"kind": "newchild-changes-parent-table", "instance": pk, "role": "ABCDEF"[pk], "child": role,
                                      "real": after["table"], "spec": before["table"]})
             # a memory the child shares may be written by the data segments applied again and by the child's start function
             if before["mem"] and after["mem"] and before["mem"] != after["mem"] and not (shares_memory and (reapplies or m.start is not None)):
-                out["diffs"].append({"kind": "newchild-changes-parent-memory", "instance": pk, "role": "ABCD"[pk], "child": role,
+                out["diffs"].append({"kind": "newchild-changes-parent-memory", "instance": pk, "role": "ABCDEF"[pk], "child": role,
                                      "real": after["mem"], "spec": before["mem"]})
         if m.start is None:
             for g_k, g in enumerate(m.globals):
